@@ -144,6 +144,7 @@ pub fn fault_run(a: &Args) -> i32 {
         for k in 0..calls[c] {
             plans.push((format!("call{}-error", k), k, 0));
             plans.push((format!("call{}-short", k), k, 1));
+            plans.push((format!("call{}-shortok", k), k, 3));
         }
         if grows[c] {
             plans.push(("growth-refused".into(), -1, 2));
@@ -200,6 +201,8 @@ pub fn fault_run(a: &Args) -> i32 {
                 // the failing call was retried or was not needed: the commit must then be complete
                 if world.dump() != states[c + 1] {
                     verdict = Some("commit returned Ok although an I/O call failed and the new state is not visible".into());
+                } else if world.check() != json!(["ok"]) {
+                    verdict = Some(format!("commit returned Ok after a short write but DB::check fails: {}", world.check()));
                 }
                 *outcomes.entry("commit-ok".into()).or_insert(0) += 1;
             } else if result[0] == "panic" {
